@@ -53,7 +53,8 @@ CONSTANTS
   Props,        \* proposers offered to BeginBlock (0 = unknown address)
   AwardTos,     \* recipients offered to ExtAward
   EvPowers,     \* reported powers offered with evidence
-  EvUnknown     \* BOOLEAN: also offer evidence against addresses the application does not know
+  EvUnknown,    \* BOOLEAN: also offer evidence against addresses the application does not know
+  MaxRO         \* read-only calls (CheckTx / Simulate / Query) offered per block phase
 
 FEE  == N + 1
 POOL == N + 2
@@ -96,13 +97,15 @@ PreGenesis ==
     uq |-> {},
     sinfo |-> [v \in Users |-> NoInfo],
     bits |-> [v \in Users |-> {}],
-    awardQ |-> [a \in Accts |-> 0], burnQ |-> [v \in Users |-> 0],
+    awardQ |-> [a \in Accts |-> 0], burnQ |-> [v \in Users |-> -1],   \* burnQ: -1 = no entry
     proposer |-> -1, pkrel |-> {},
     \* Tendermint: vs[1] signs the next BeginBlock's LastCommitInfo, vs[2] is the set of the
     \* block begun next, vs[3] the one after (where EndBlock's updates land)
     vs |-> << [v \in Users |-> 0], [v \in Users |-> 0], [v \in Users |-> 0] >>,
     \* bookkeeping of the environment / ghosts
-    ntx |-> 0, next |-> 0,
+    ntx |-> 0, next |-> 0, nro |-> 0,
+    \* digests of the real stores (auth store; all other stores); only the trace monitor sets them
+    dAuth |-> "", dRest |-> "",
     minted |-> 0, burned |-> 0, donated |-> 0, fees |-> 0,
     gwin |-> [v \in Users |-> << >>],
     lastRes |-> "n/a", lastUpd |-> {}, updOk |-> TRUE,
@@ -269,7 +272,11 @@ MintAwards(s) ==
                   ELSE LET a == CHOOSE x \in S : \A y \in S : x <= y
                            amt == IF "MintDouble" \in Dev THEN 2 * t.awardQ[a] ELSE t.awardQ[a]
                            t1 == Send(MintTo(t, POOL, amt), POOL, a, t.awardQ[a])
-                       IN go([t1 EXCEPT !.awardQ = [@ EXCEPT ![a] = 0]], S \ {a})
+                       \* an award addressed to the pool account itself stays there, like a direct send
+                       IN go([t1 EXCEPT !.awardQ = [@ EXCEPT ![a] = 0],
+                                        !.donated = IF a = POOL THEN @ + t.awardQ[a] ELSE @,
+                                        \* ... and one addressed to the fee collector joins the next proposer's reward
+                                        !.fees = IF a = FEE THEN @ + t.awardQ[a] ELSE @], S \ {a})
   IN go(s, {a \in Accts : s.awardQ[a] > 0})
 
 \* slash.go burnValidators: panics (halts) when a burn is queued for a validator that no longer exists
@@ -280,8 +287,8 @@ BurnValidators(s) ==
                        IN IF ~t.val[v].ex THEN [t EXCEPT !.halt = "burn-missing-validator"]
                           ELSE LET cp == IF t.val[v].status = Staked THEN Power(t.val[v].tokens) ELSE 0
                                    t1 == Slash(t, v, t.height, cp, t.burnQ[v])
-                               IN go([t1 EXCEPT !.burnQ = [@ EXCEPT ![v] = 0]], S \ {v})
-  IN go(s, {v \in Users : s.burnQ[v] > 0})
+                               IN go([t1 EXCEPT !.burnQ = [@ EXCEPT ![v] = -1]], S \ {v})
+  IN go(s, {v \in Users : s.burnQ[v] >= 0})
 
 \* slash.go handleValidatorSignature
 HandleSignature(s, v, power, signed) ==
@@ -338,7 +345,7 @@ FoldEvidence(s, evs) ==
   IN go(s, 1)
 
 BeginBlock(s, a) ==
-  LET s0 == [s EXCEPT !.height = @ + 1, !.time = @ + a.dt, !.phase = "begun", !.ntx = 0, !.next = 0,
+  LET s0 == [s EXCEPT !.height = @ + 1, !.time = @ + a.dt, !.phase = "begun", !.ntx = 0, !.next = 0, !.nro = 0,
                       !.lastRes = "n/a", !.jailedNow = {}, !.slashLog = << >>]
       s1 == IF s0.height > 1 THEN [RewardFromFees(s0) EXCEPT !.fees = 0] ELSE s0
       s2 == MintAwards(s1)
@@ -426,15 +433,19 @@ InitChain(s) ==
       set == ApplyUpd(s.vs[3], s2.lastUpd)
   IN IF s2.halt # "" THEN s2 ELSE [s2 EXCEPT !.vs = << s.vs[1], set, set >>]
 
-Commit(s) == [s EXCEPT !.phase = "committed"]
+Commit(s) == [s EXCEPT !.phase = "committed", !.nro = 0]
 
 ExtAward(s, a) == [s EXCEPT !.awardQ = [@ EXCEPT ![a.to] = @ + a.amt], !.next = @ + 1]
 ExtBurn(s, a) ==
-  IF "BurnNilDec" \in Dev /\ s.burnQ[a.from] = 0 THEN [s EXCEPT !.next = @ + 1]
-  ELSE [s EXCEPT !.burnQ = [@ EXCEPT ![a.from] = @ + a.num], !.next = @ + 1]
+  IF "BurnNilDec" \in Dev /\ s.burnQ[a.from] = -1 THEN [s EXCEPT !.next = @ + 1]
+  ELSE [s EXCEPT !.burnQ = [@ EXCEPT ![a.from] = IF @ = -1 THEN a.num ELSE @ + a.num], !.next = @ + 1]
+
+\* CheckTx, Simulate (Query /app/simulate) and Query never change the state
+ReadOnly(s, a) == [s EXCEPT !.nro = @ + 1, !.lastRes = "n/a"]
 
 Step(s, a) ==
   CASE a.a = "InitChain"  -> InitChain(s)
+    [] a.a \in {"CheckTx", "Simulate", "Query"} -> ReadOnly(s, a)
     [] a.a = "BeginBlock" -> BeginBlock(s, a)
     [] a.a = "Tx"         -> DeliverTx(s, a)
     [] a.a = "ExtAward"   -> ExtAward(s, a)
@@ -476,16 +487,25 @@ TxChoices(s) ==
              \cup {T("stake", v, 0, 0, Fee, "none") : v \in Users}
   IN good \cup badtx
 
+QueryKinds == {"store-acc", "store-pos", "custom-pool", "custom-params", "custom-vals", "version", "bad-path"}
+ROChoices(s) ==
+  IF s.nro >= MaxRO THEN {}
+  ELSE {[t EXCEPT !.a = "CheckTx"] : t \in TxChoices(s)}
+       \cup {[t EXCEPT !.a = "Simulate"] : t \in TxChoices(s)}
+       \cup {[a |-> "Query", kind |-> q] : q \in QueryKinds}
+
 Acts(s) ==
   IF s.halt # "" THEN {}
   ELSE CASE s.phase = "init" -> {[a |-> "InitChain"]}
          [] s.phase = "committed" ->
-              IF s.height >= MaxHeight THEN {}
-              ELSE {[a |-> "BeginBlock", dt |-> d, prop |-> p, votes |-> vt, evs |-> ev] :
-                      d \in Dts, p \in Props, vt \in VoteChoices(s), ev \in EvChoices(s)}
+              (IF s.height >= MaxHeight THEN {}
+               ELSE {[a |-> "BeginBlock", dt |-> d, prop |-> p, votes |-> vt, evs |-> ev] :
+                      d \in Dts, p \in Props, vt \in VoteChoices(s), ev \in EvChoices(s)})
+              \cup (IF s.height >= MaxHeight THEN {} ELSE ROChoices(s))
          [] s.phase = "begun" ->
               {[a |-> "EndBlock"]}
               \cup (IF s.ntx < MaxTx THEN TxChoices(s) ELSE {})
+              \cup ROChoices(s)
               \cup (IF s.next < MaxExt
                     THEN {[a |-> "ExtAward", to |-> x, amt |-> y] : x \in AwardTos, y \in (Amts \ {0})}
                          \cup {[a |-> "ExtBurn", from |-> v, num |-> k] : v \in {u \in Users : s.val[u].ex}, k \in BurnNums}
